@@ -286,9 +286,15 @@ type solverSpec struct {
 	pre  func(timeoutMs int) string
 }
 
+// The z3 budgets are resource limits (deterministic: the same script gives the same verdict whatever the machine
+// load), sized at about 0.7 M units per nominal second; the wall-clock timeout is only a backstop at 4x.
+func z3Limits(t int) string {
+	return fmt.Sprintf("(set-option :rlimit %d)\n(set-option :timeout %d)\n", t*700, 4*t)
+}
+
 var solvers = []solverSpec{
-	{"z3-new", func(t int) []string { return []string{"-in"} }, func(t int) string { return fmt.Sprintf("(set-option :timeout %d)\n", t) }},
-	{"z3", func(t int) []string { return []string{"-in"} }, func(t int) string { return fmt.Sprintf("(set-option :timeout %d)\n", t) }},
+	{"z3-new", func(t int) []string { return []string{"-in"} }, z3Limits},
+	{"z3", func(t int) []string { return []string{"-in"} }, z3Limits},
 	{"cvc5", func(t int) []string {
 		return []string{"--incremental", "--lang=smt2", fmt.Sprintf("--tlimit-per=%d", t), "--produce-models"}
 	}, func(t int) string { return "(set-logic ALL)\n" }},
@@ -409,7 +415,7 @@ func (e *Engine) runSolverChunk(sv solverSpec, preamble string, obls []*Obl, tim
 		short := len(o.Any) > 2 && sv.name != "cvc5"
 		if short {
 			// many alternative termination measures: most of them fail, none deserves the full budget
-			fmt.Fprintf(&s, "(set-option :timeout %d)\n", timeoutMs/4+300)
+			fmt.Fprintf(&s, "(set-option :rlimit %d)\n", (timeoutMs/4+300)*700)
 		}
 		for j, alt := range oblQueries(o) {
 			for k, f := range alt {
@@ -425,7 +431,7 @@ func (e *Engine) runSolverChunk(sv solverSpec, preamble string, obls []*Obl, tim
 			}
 		}
 		if short {
-			fmt.Fprintf(&s, "(set-option :timeout %d)\n", timeoutMs)
+			fmt.Fprintf(&s, "(set-option :rlimit %d)\n", timeoutMs*700)
 		}
 	}
 	if e.opts.DumpDir != "" && len(obls) > 0 {
@@ -439,7 +445,7 @@ func (e *Engine) runSolverChunk(sv solverSpec, preamble string, obls []*Obl, tim
 			nq += len(a)
 		}
 	}
-	budget := time.Duration(nq*timeoutMs+20000) * time.Millisecond
+	budget := time.Duration(nq*timeoutMs*4+20000) * time.Millisecond
 	ctx, cancel := context.WithTimeout(context.Background(), budget)
 	defer cancel()
 	t0 := time.Now()
